@@ -146,6 +146,49 @@ def tpl_reassign(old, k, x, y, d2, _twin=False):
         w.close(code)
 
 
+def tpl_history(size, k, h, r, d2, _twin=False):
+    """The read and the admission on an *idle* pool after a history: k <= size tasks ran while the pool was locked and
+    unlocked again (h 1), were cancelled (h 2), failed (h 3), were flushed (h 4), or just finished (h 0), r of them ending
+    inside the special period.  Nothing was ever assigned: the configured maximum is still `size`."""
+    w = World("c15.history")
+    code = 0
+    try:
+        pool = TaskPool(pool_size=size)
+        it = Interp(w, pool, cbkind=0)
+        it.apply(k)
+        w.settle()
+        if h == 1:
+            it.lock()
+        for j in range(k):
+            if j < r:
+                if h == 2:
+                    it.cancel(j)
+                elif h == 3:
+                    it.fail(j)
+                else:
+                    it.release(j)
+                w.settle()
+        if h == 1:
+            it.unlock()
+        w.drain()
+        if h == 4:
+            it.flush(True)
+            w.settle()
+        if w.live or pool.num_running:
+            return 0
+        if pool.pool_size != size:
+            code = 1501
+        it.apply(d2)
+        w.settle()
+        if not code and w.live != _min(size, d2):
+            code = 1507
+        if _twin and not code and h == 1 and r >= 2 and d2 > size:
+            code = 77
+        return code
+    finally:
+        w.close(code)
+
+
 def tpl_eventually(old, d, new, _twin=False):
     """d invocations requested on an old-sized pool (some run, some wait); pool_size = new >= 1 is assigned meanwhile
     (what that assignment does to the limit is the open finding T6 and is not judged); then the running tasks finish
@@ -180,6 +223,9 @@ def families(tier):
             Family(name="eventually", fn="tpl_eventually", params=["old", "d", "new"],
                    pre=["old >= 1", "1 <= d <= %d" % dm, "new >= 1"], parts=parts_product(d=range(1, dm + 1)),
                    twin_pre=["d == 3"], twin_args=[1, 3, 2]),
+            Family(name="history", fn="tpl_history", params=["size", "k", "h", "r", "d2"],
+                   pre=["1 <= size", "1 <= k <= 3", "k <= size", "0 <= h <= 4", "0 <= r <= 3", "0 <= d2 <= 4"],
+                   parts=parts_product(h=range(5)), twin_pre=["h == 1", "k == 2"], twin_args=[2, 2, 1, 2, 3]),
             Family(name="reassign", fn="tpl_reassign", params=["old", "k", "x", "y", "d2"],
                    pre=["1 <= old", "1 <= k <= 3", "k <= old", "x >= 0", "y >= 0", "0 <= d2 <= 3"],
                    parts=parts_product(k=(1, 2, 3)), twin_pre=["k == 2"], twin_args=[3, 2, 1, 1, 3])]
